@@ -198,7 +198,7 @@ def from_segments(chk, prog, cfg):
             last = name.split("::")[-1]
             if last == "into_iter" and args == [S("segments")]:
                 return S("it")
-            if last == "collect" and args == [S("it")]:
+            if last in ("collect", "from_iter") and args in ([S("it")], [S("segments")]):
                 return S("V")
             if last == "is_empty" and args == [S("V")]:
                 return is_empty
